@@ -24,6 +24,10 @@ CLAIMED['C04'] = ("Coq theorems: Shannon entropy of any pmf is in [0, log2 |supp
          COMMON_NOTE + REAL_NOTE + "Only linear distributions (log bases are C07).")
 CLAIMED['C05'] = ("Coq theorems: each multivariate measure evaluates to its defining combination of conditional entropies for any entropy function; for two groups co-information, total correlation, dual total correlation and CAEKL all equal I(X:Y|Z); on every finite table with positive weights I(X:Y|Z) >= 0 (full proof via Gibbs + a combinatorial mass bound), total correlation >= 0, dual total correlation >= 0 for disjoint groups, every CAEKL candidate >= 0; the model value on a clean distribution equals the joint-table entropy combination. Tie to /repo: each generated query (9 measures, arbitrary groupings, conditioning, names, cohesion k, CAEKL with per-partition lower-bound goals and a hinted minimiser) is an interval-arithmetic goal against dit's value.",
          COMMON_NOTE + REAL_NOTE + "TSE and cohesion are covered by correspondence only (their defining sums are transcribed, no separate theorem).")
+CLAIMED['C07'] = ("Coq theorems over the reals, for every base b>0, b<>1 (incl. 0<b<1): b^(add x y) = b^x + b^y, b^(x+y) = b^x b^y, b^(-x) = 1/b^x, add_reduce and normalize render to sum and to a unit-mass vector, set_base between any two log bases and the linear<->log round trip preserve the rendered value, and dit's log-branch entropy -sum b^x x equals the entropy in bits times ln2/ln b. Tie to /repo: interval-arithmetic goals for (i) every element of LogOperations results on random log arrays incl. the null value, (ii) every stored value, lookup, copypmf array and event probability after random chains of set_base/copy/copypmf, (iii) Shannon-type measures of log-base distributions against the linear model in base-b units. Structural operations on log distributions are additionally exercised by the C02/C03/C09 generators.",
+         COMMON_NOTE + REAL_NOTE + "Null log values (-inf, or +inf for b<1) are mapped to probability 0 by the driver; sampling of log distributions is covered by C12.")
+CLAIMED['C19'] = ("Coq theorems (axiom-free): sliding windows number len-L+1, have length L and start at successive positions; counts add up to the number of windows and each count is the number of occurrences; distribution_from_data assigns count/#windows to each occurring word, its keys are exactly the occurring words without duplicates and its mass is 1; the time-series regrouping has the stated shape; binning checks imply every sample gets a label in range. Tie to /repo: boolean model+property checks evaluated by vm_compute for distribution_from_data, dist_from_timeseries, counts_from_data and binned(), and interval goals for entropy_0/1/2.",
+         COMMON_NOTE + REAL_NOTE + "Mathematical fact used, not proved: digamma(n) = H_{n-1} - gamma at positive integers. At a bin edge (within 1e-9) either neighbouring label is accepted.")
 PLANNED = {}
 ALL = ['C%02d' % i for i in range(1, 21)]
 
